@@ -713,3 +713,324 @@ Proof.
   intros m p s b n sz ck [-> | ->]; destruct s; try destruct sz; cbn; split; try reflexivity;
     eexists; (split; [reflexivity|]); simpl; auto.
 Qed.
+
+(* ====================================================================================== *)
+(* The two documented ways of storing converge (C19)                                       *)
+(* ====================================================================================== *)
+
+(* store without a pid, optionally delete_if_invalid with the caller's verdict, then tag *)
+Definition in_steps (m : fmap) (p : pid) (s : src) (b n : nat) (v : option (vsz * bool * bool))
+  : fmap * outcome value :=
+  match sem m (CStore None s b n VSzNone VCkNone) with
+  | (m1, Exn e) => (m1, Exn e)
+  | (m1, Val _) =>
+      match (match v with
+             | Some (sz, pre, ok) => sem m1 (CDelInvalid b sz pre ok)
+             | None => (m1, Val VUnit)
+             end) with
+      | (m2, Exn e) => (m2, Exn e)
+      | (m2, Val _) =>
+          match sem m2 (CTag p b) with
+          | (m3, Val _) => (m3, Val (VMeta b n))
+          | (m3, Exn e) => (m3, Exn e)
+          end
+      end
+  end.
+
+Definition one_call (m : fmap) (p : pid) (s : src) (b n : nat) (sz : vsz) (ck : vck)
+  : fmap * outcome value := sem m (CStore (Some p) s b n sz ck).
+
+Lemma present_add_obj : forall m b n, present (AObj b) (add_obj m b n) = true.
+Proof.
+  intros. unfold present. rewrite lookup_add_obj. cbn. rewrite Nat.eqb_refl.
+  destruct (lookup (AObj b) m); reflexivity.
+Qed.
+
+Lemma in_steps_tag : forall m p b n,
+  match (match sem_tag m p b with
+         | (m', Val _) => (m', Val VUnit)
+         | (m', Exn e) => (m', Exn e)
+         end) with
+  | (m3, Val _) => (m3, Val (VMeta b n))
+  | (m3, Exn e) => (m3, @Exn value e)
+  end =
+  match sem_tag m p b with
+  | (m2, Val _) => (m2, Val (VMeta b n))
+  | (m2, Exn e) => (m2, Exn e)
+  end.
+Proof. intros. destruct (sem_tag m p b) as [m3 [x|e]]; reflexivity. Qed.
+
+(* the two routes give the very same map and outcome; neither [InvF m] nor the hypothesis on the
+   pre-existing object is needed *)
+Lemma converge_valid_eq : forall m p s b n sz pre, sz <> VSzBad ->
+  one_call m p s b n sz VCkOk = in_steps m p s b n (Some (sz, pre, true)).
+Proof.
+  intros m p s b n sz pre Hsz. unfold one_call, in_steps. cbn [sem]. rewrite !sem_store_unfold.
+  destruct (negb (src_ok s)); [reflexivity|].
+  assert (Hd : sem_del_invalid (add_obj m b n) b sz pre true = (add_obj m b n, Val VUnit)).
+  { unfold sem_del_invalid. rewrite present_add_obj. destruct sz; [| |congruence]; destruct pre; reflexivity. }
+  rewrite Hd. rewrite in_steps_tag. destruct sz; [| |congruence]; reflexivity.
+Qed.
+
+Theorem converge_valid : forall m p s b n sz pre, InvF m -> sz <> VSzBad ->
+  (a_obj m b = None \/ exists n', a_obj m b = Some (CData b n' n')) ->
+  let one := one_call m p s b n sz VCkOk in
+  let two := in_steps m p s b n (Some (sz, pre, true)) in
+  snd one = snd two /\ fs_eq (fst one) (fst two).
+Proof.
+  intros m p s b n sz pre _ Hsz _. cbv zeta. rewrite (converge_valid_eq m p s b n sz pre Hsz).
+  split; [reflexivity|]. intros a. reflexivity.
+Qed.
+
+Lemma converge_unvalidated_eq : forall m p s b n,
+  one_call m p s b n VSzNone VCkNone = in_steps m p s b n None.
+Proof.
+  intros. unfold one_call, in_steps. cbn [sem]. rewrite !sem_store_unfold.
+  destruct (negb (src_ok s)); [reflexivity|]. rewrite in_steps_tag. reflexivity.
+Qed.
+
+Theorem converge_unvalidated : forall m p s b n, InvF m ->
+  (a_obj m b = None \/ exists n', a_obj m b = Some (CData b n' n')) ->
+  let one := one_call m p s b n VSzNone VCkNone in
+  let two := in_steps m p s b n None in
+  snd one = snd two /\ fs_eq (fst one) (fst two).
+Proof.
+  intros m p s b n _ _. cbv zeta. rewrite converge_unvalidated_eq.
+  split; [reflexivity|]. intros a. reflexivity.
+Qed.
+
+(* what the in-steps route does when the caller's verdict is "invalid" *)
+Lemma in_steps_invalid : forall m p s b n sz pre ok e, src_ok s = true ->
+  ((sz = VSzBad /\ e = ENonMatchingObjSize) \/
+   (sz <> VSzBad /\ ok = false /\ e = ENonMatchingChecksum)) ->
+  in_steps m p s b n (Some (sz, pre, ok)) =
+  (if present (ACidRef b) m then add_obj m b n else delete (AObj b) (add_obj m b n), Exn e).
+Proof.
+  intros m p s b n sz pre ok e Hs Hv. unfold in_steps. cbn [sem]. rewrite sem_store_unfold, Hs.
+  cbn [negb]. unfold sem_del_invalid. rewrite present_add_obj.
+  assert (Hc : present (ACidRef b) (add_obj m b n) = present (ACidRef b) m).
+  { unfold present. rewrite lookup_add_obj. reflexivity. }
+  rewrite Hc.
+  destruct Hv as [[-> ->]|[Hsz [-> ->]]].
+  - destruct (present (ACidRef b) m); reflexivity.
+  - destruct sz; [| |congruence]; destruct pre; destruct (present (ACidRef b) m); reflexivity.
+Qed.
+
+(* FALSE AS FIRST WRITTEN in one clause: "every referenced object is untouched" fails for a
+   referenced cid that has no object file: the in-steps route creates the object and, the cid
+   being referenced, delete_if_invalid keeps it ([converge_invalid_counterexample]).  Proved for
+   every referenced object that is present, plus: no object other than [b] changes at all.
+   Holds for both values of [pre] (the stored object is always readable at that point), for any
+   checksum verdict when the size is wrong, and for any [ok] when the size is wrong. *)
+Theorem converge_invalid : forall m p s b n sz ck pre ok e, InvF m -> src_ok s = true ->
+  ((sz = VSzBad /\ e = ENonMatchingObjSize) \/
+   (sz <> VSzBad /\ ck = VCkBad /\ ok = false /\ e = ENonMatchingChecksum)) ->
+  let one := one_call m p s b n sz ck in
+  let two := in_steps m p s b n (Some (sz, pre, ok)) in
+  snd one = Exn e /\ snd two = Exn e /\
+  fst one = m /\
+  (forall q, a_bind (fst two) q = a_bind m q) /\
+  (forall c, a_refs (fst two) c = a_refs m c) /\
+  (forall q g, a_meta (fst two) q g = a_meta m q g) /\
+  (forall c x, referenced m c -> a_obj m c = Some x -> a_obj (fst two) c = Some x) /\
+  (forall c, c <> b -> a_obj (fst two) c = a_obj m c).
+Proof.
+  intros m p s b n sz ck pre ok e HI Hs Hv. cbv zeta.
+  assert (Hone : one_call m p s b n sz ck = (m, Exn e)).
+  { unfold one_call. cbn [sem]. rewrite sem_store_unfold, Hs. cbn [negb].
+    destruct Hv as [[-> ->]|[Hsz [-> [_ ->]]]]; [reflexivity|].
+    destruct sz; [| |congruence]; reflexivity. }
+  assert (Hv' : (sz = VSzBad /\ e = ENonMatchingObjSize) \/
+                (sz <> VSzBad /\ ok = false /\ e = ENonMatchingChecksum)).
+  { destruct Hv as [H|[H1 [_ [H2 H3]]]]; auto. }
+  rewrite Hone, (in_steps_invalid m p s b n sz pre ok e Hs Hv'). cbn [fst snd].
+  split; [reflexivity|]. split; [reflexivity|]. split; [reflexivity|].
+  unfold a_bind, a_refs, a_meta, a_obj, present.
+  destruct (lookup (ACidRef b) m) as [y|] eqn:Ec.
+  - split; [intros q; rewrite lookup_add_obj; reflexivity|].
+    split; [intros c; rewrite lookup_add_obj; reflexivity|].
+    split; [intros q g; rewrite lookup_add_obj; reflexivity|].
+    split.
+    + intros c x _ Hx. rewrite lookup_add_obj. cbn. destruct (Nat.eqb c b) eqn:Eb; [|exact Hx].
+      apply Nat.eqb_eq in Eb. subst c. rewrite Hx. reflexivity.
+    + intros c Hne. rewrite lookup_add_obj. cbn. apply Nat.eqb_neq in Hne. rewrite Hne. reflexivity.
+  - split; [intros q; rewrite lookup_delete, lookup_add_obj; reflexivity|].
+    split; [intros c; rewrite lookup_delete, lookup_add_obj; reflexivity|].
+    split; [intros q g; rewrite lookup_delete, lookup_add_obj; reflexivity|].
+    assert (Hoth : forall c, c <> b ->
+              lookup (AObj c) (delete (AObj b) (add_obj m b n)) = lookup (AObj c) m).
+    { intros c Hne. rewrite lookup_delete, lookup_add_obj. cbn. apply Nat.eqb_neq in Hne.
+      rewrite Hne. reflexivity. }
+    split; [|exact Hoth].
+    intros c x [q Hq] Hx. rewrite Hoth; [exact Hx|]. intros ->.
+    apply a_bind_Some in Hq. destruct (InvF_bound _ _ _ HI Hq) as [l [El _]]. congruence.
+Qed.
+
+Example converge_invalid_counterexample :
+  InvF m_unbacked /\ referenced m_unbacked 5 /\ a_obj m_unbacked 5 = None /\
+  in_steps m_unbacked 2 SrcPath 5 3 (Some (VSzBad, false, false)) =
+    (update (AObj 5) (CData 5 3 3) m_unbacked, Exn ENonMatchingObjSize) /\
+  one_call m_unbacked 2 SrcPath 5 3 VSzBad VCkNone = (m_unbacked, Exn ENonMatchingObjSize).
+Proof.
+  split; [apply sem_inv; apply InvF_empty|].
+  split; [exists 1; reflexivity|]. repeat split; reflexivity.
+Qed.
+
+(* ====================================================================================== *)
+(* Non-vacuity: a concrete state satisfying the invariant, and instances                   *)
+(* ====================================================================================== *)
+
+(* pids 1 and 2 share object 7; pid 1 has a metadata document in format 0 *)
+Definition m_ex : fmap :=
+  update (AMeta 1 0) (CData 9 2 2)
+    (update (ACidRef 7) (CLines [1; 2])
+      (update (APidRef 2) (CCid 7)
+        (update (APidRef 1) (CCid 7)
+          (update (AObj 7) (CData 7 3 3) [])))).
+
+Example InvF_m_ex : InvF m_ex.
+Proof.
+  split; [|split].
+  - intros a x H. apply lookup_In in H. vm_compute in H.
+    destruct H as [H|[H|[H|[H|[H|[]]]]]]; inversion H; subst; cbn; eauto.
+  - intros p c H. apply lookup_In in H. vm_compute in H.
+    destruct H as [H|[H|[H|[H|[H|[]]]]]]; inversion H; subst;
+      (exists [1; 2]; split; [reflexivity|simpl; auto]).
+  - intros c l H. apply lookup_In in H. vm_compute in H.
+    destruct H as [H|[H|[H|[H|[H|[]]]]]]; inversion H; subst.
+    split; [discriminate|]. split.
+    + constructor; [simpl; intros [E|[]]; discriminate|]. constructor; [intros []|constructor].
+    + intros p [E|[E|[]]]; subst; reflexivity.
+Qed.
+
+(* the same state is reached by the API from the empty store *)
+Example m_ex_reached :
+  fst (sem_history [] [CStore (Some 1) SrcPath 7 3 VSzNone VCkNone;
+                       CStore (Some 2) SrcStream 7 3 VSzOk VCkOk;
+                       CStoreMeta 1 0 SrcPath 9 2]) = m_ex.
+Proof. vm_compute. reflexivity. Qed.
+
+Example ex_delete_shared :
+  a_obj (fst (sem m_ex (CDelete 1))) 7 = Some (CData 7 3 3) /\
+  a_bind (fst (sem m_ex (CDelete 1))) 2 = Some 7.
+Proof.
+  exact (delete_shared_keeps m_ex 1 2 7 InvF_m_ex eq_refl eq_refl ltac:(discriminate)).
+Qed.
+
+Example ex_delete_clears_meta :
+  snd (sem m_ex (CDelete 1)) = Val VUnit /\ a_meta m_ex 1 0 = Some (CData 9 2 2) /\
+  a_meta (fst (sem m_ex (CDelete 1))) 1 0 = None.
+Proof.
+  destruct (delete_total m_ex 1 InvF_m_ex ltac:(discriminate)) as [H1 [_ [_ H4]]].
+  split; [exact H1|]. split; [reflexivity|apply H4].
+Qed.
+
+Example ex_last_delete :
+  let m1 := fst (sem m_ex (CDelete 1)) in
+  a_obj m1 7 <> None /\ a_obj (fst (sem m1 (CDelete 2))) 7 = None /\ a_refs (fst (sem m1 (CDelete 2))) 7 = None.
+Proof.
+  cbv zeta. split; [vm_compute; discriminate|].
+  apply last_delete_removes; [apply sem_inv; exact InvF_m_ex|reflexivity|reflexivity].
+Qed.
+
+Example ex_rebind_rejected :
+  snd (sem m_ex (CStore (Some 1) SrcPath 8 3 VSzNone VCkNone)) = Exn EPidRefsAlreadyExists /\
+  a_bind (fst (sem m_ex (CStore (Some 1) SrcPath 8 3 VSzNone VCkNone))) 1 = Some 7 /\
+  a_obj (fst (sem m_ex (CStore (Some 1) SrcPath 8 3 VSzNone VCkNone))) 8 = Some (CData 8 3 3) /\
+  ~ referenced m_ex 8.
+Proof.
+  split; [exact (rebind_rejected_which m_ex 1 7 SrcPath 8 3 VSzNone VCkNone InvF_m_ex eq_refl eq_refl
+                   ltac:(discriminate) ltac:(discriminate))|].
+  destruct (rebind_rejected m_ex 1 7 (CStore (Some 1) SrcPath 8 3 VSzNone VCkNone) InvF_m_ex eq_refl
+              ltac:(left; repeat eexists)) as [_ [Hb [_ [_ [_ Hnew]]]]].
+  split; [rewrite Hb; reflexivity|]. split; [reflexivity|].
+  destruct (Hnew 8 eq_refl ltac:(vm_compute; discriminate)) as [_ Hun]. apply Hun.
+  intros c [q Hq]. apply (bound_iff_listed m_ex q c InvF_m_ex) in Hq. destruct Hq as [l [Hl _]].
+  apply a_refs_Some in Hl. apply lookup_In in Hl. vm_compute in Hl.
+  destruct Hl as [H|[H|[H|[H|[H|[]]]]]]; inversion H; subst. vm_compute. discriminate.
+Qed.
+
+Example ex_retrieve_stable :
+  snd (sem (fst (sem_history m_ex
+         [CDelete 2; CStore (Some 1) SrcPath 8 1 VSzOk VCkOk; CDelInvalid 7 VSzBad false false;
+          CStore (Some 3) SrcPath 8 1 VSzNone VCkNone; CDelMeta 1 None; CRejected ETypeError;
+          CTag 1 8; CDelete 3]))
+       (CRetrieve 1)) = Val (VBytes (CData 7 3 3)).
+Proof.
+  apply retrieve_stable with (c := 7); [exact InvF_m_ex|reflexivity|reflexivity| |].
+  - simpl. intros H. repeat (destruct H as [H|H]; [discriminate|]). exact H.
+  - simpl. intros H. repeat (destruct H as [H|H]; [discriminate|]). exact H.
+Qed.
+
+Example ex_meta_stable :
+  snd (sem (fst (sem_history m_ex [CDelete 2; CStoreMeta 1 1 SrcPath 4 4; CDelMeta 2 None;
+                                   CDelMeta 1 (Some 1); CStoreMeta 2 0 SrcStream 5 5]))
+       (CRetrMeta 1 0)) = Val (VBytes (CData 9 2 2)).
+Proof.
+  apply meta_stable; [reflexivity|]. simpl.
+  intros c0 H. repeat (destruct H as [H|H]; [subst c0; reflexivity|]). destruct H.
+Qed.
+
+Example ex_converge :
+  one_call m_ex 3 SrcPath 8 2 VSzOk VCkOk = in_steps m_ex 3 SrcPath 8 2 (Some (VSzOk, false, true)) /\
+  snd (one_call m_ex 3 SrcPath 8 2 VSzOk VCkOk) = Val (VMeta 8 2) /\
+  snd (one_call m_ex 1 SrcPath 8 2 VSzOk VCkOk) = Exn EPidRefsAlreadyExists /\
+  snd (in_steps m_ex 1 SrcPath 8 2 (Some (VSzOk, false, true))) = Exn EPidRefsAlreadyExists.
+Proof.
+  split; [apply converge_valid_eq; discriminate|]. repeat split; reflexivity.
+Qed.
+
+(* ====================================================================================== *)
+(* Assumptions                                                                             *)
+(* ====================================================================================== *)
+
+Print Assumptions lookup_delete_all_meta.
+Print Assumptions InvF_fs_eq.
+Print Assumptions InvF_empty.
+Print Assumptions sem_inv.
+Print Assumptions sem_history_inv.
+Print Assumptions reach_inv.
+Print Assumptions delete_total.
+Print Assumptions bound_iff_listed.
+Print Assumptions listed_once.
+Print Assumptions binding_changes_only_by_delete.
+Print Assumptions rebind_rejected.
+Print Assumptions rebind_rejected_class.
+Print Assumptions rebind_rejected_which.
+Print Assumptions rebind_rejected_counterexample.
+Print Assumptions rebound_only_after_delete.
+Print Assumptions referenced_object_stable.
+Print Assumptions referenced_object_stable_present.
+Print Assumptions referenced_object_stable_counterexample.
+Print Assumptions object_removed_only_when_unreferenced.
+Print Assumptions last_delete_removes.
+Print Assumptions delete_shared_keeps.
+Print Assumptions del_invalid_guard.
+Print Assumptions objects_never_altered.
+Print Assumptions retrieve_bound.
+Print Assumptions store_then_retrieve.
+Print Assumptions retrieve_stable.
+Print Assumptions get_hex_digest_same.
+Print Assumptions meta_roundtrip.
+Print Assumptions meta_frame.
+Print Assumptions meta_stable.
+Print Assumptions delete_one.
+Print Assumptions delete_all_own_only.
+Print Assumptions delete_object_clears_meta.
+Print Assumptions delete_absent_noop.
+Print Assumptions retrieve_absent_notfound.
+Print Assumptions meta_calls_leave_objects.
+Print Assumptions rejected_pure.
+Print Assumptions readonly_pure.
+Print Assumptions unknown_pid_pure.
+Print Assumptions missing_source_pure.
+Print Assumptions missing_source_pure_meta.
+Print Assumptions invalid_store_pure.
+Print Assumptions invalid_store_pure_ck.
+Print Assumptions invalid_store_fst.
+Print Assumptions converge_valid.
+Print Assumptions converge_unvalidated.
+Print Assumptions converge_invalid.
+Print Assumptions converge_invalid_counterexample.
+Print Assumptions InvF_m_ex.
+Print Assumptions ex_retrieve_stable.
